@@ -212,6 +212,18 @@ func (fg *FuncGen) execCall(res ssa.Value, c *ssa.CallCommon, in ssa.Instruction
 		fg.execBuiltin(res, b, c, in.Pos())
 		return
 	}
+	if mc, ok := fg.closures[c.Value]; ok && !c.IsInvoke() {
+		var cargs []Val
+		for _, a := range c.Args {
+			cargs = append(cargs, fg.val(a))
+		}
+		if rv, ok := fg.inlineClosure(mc, cargs, "true"); ok {
+			if res != nil {
+				fg.vals[res] = rv
+			}
+			return
+		}
+	}
 	var args []Val
 	if c.IsInvoke() || c.StaticCallee() == nil {
 		args = append(args, fg.val(c.Value))
@@ -225,6 +237,7 @@ func (fg *FuncGen) execCall(res ssa.Value, c *ssa.CallCommon, in ssa.Instruction
 		args = args[0:]
 	} else if c.StaticCallee() == nil {
 		fg.oblige("safe:callnil", fg.g.srcText(in.Pos(), "call"), fmt.Sprintf("(not (= %s 0))", args[0].T), nil, "")
+		fg.pendingFnVal = args[0].T
 		args = args[1:]
 	}
 	r := fg.applyCall(cl, args, in.Pos(), "true")
@@ -263,6 +276,7 @@ func (fg *FuncGen) applyCall(cl *callee, args []Val, pos token.Pos, guard string
 	}
 	// ghost call trace
 	fg.recordCall(cl, args, guard)
+	fg.pendingFnVal = ""
 	fg.callEpoch++
 
 	resT := cl.sig.Results()
@@ -298,6 +312,25 @@ func (fg *FuncGen) applyCall(cl *callee, args []Val, pos token.Pos, guard string
 			fg.oblige("pre@call", txt+": "+r.Text, t, props, r.Text)
 		}
 	}
+	if cl.ct != nil && fg.pendingTrace != nil {
+		// observed state expressions of the callee's pre-state
+		for _, ob := range cl.ct.Observes {
+			env := bind(st, st, nil)
+			if p := fg.g.pkgByPath(ob.Pkg); p != nil {
+				env.pkg = p
+			}
+			t := fg.g.resolveType(ob.Type, env.pkg)
+			if t == nil {
+				fg.g.bindErrors = append(fg.g.bindErrors, fmt.Sprintf("%s: observe %s: unknown type %s", cl.ct.Key, ob.Name, ob.Type))
+				continue
+			}
+			v := fg.tr(ob.Expr, env, t)
+			cell := fmt.Sprintf("$callobs:%s:%s", cl.name, ob.Name)
+			srt := fmt.Sprintf("(Array Int %s)", e.sortOf(t))
+			arr := fg.ghostGet(st, cell, srt, "")
+			fg.ghostSet(st, cell, srt, ite(guard, fmt.Sprintf("(store %s %s %s)", arr, fg.pendingTrace.cnt, v.T), arr))
+		}
+	}
 	if cl.inModule && cl.kind != "extern" {
 		fg.argInvariants(cl, args, pre, txt)
 	}
@@ -326,10 +359,16 @@ func (fg *FuncGen) applyCall(cl *callee, args []Val, pos token.Pos, guard string
 			}
 		}
 		for _, en := range cl.ct.Ensures {
+			if fg.g.mentionsTrace(en.Expr) {
+				continue // a fact about the callee's own call trace
+			}
 			fg.clausePkg(env, en)
 			fg.assumeHere(fg.trBool(en.Expr, env))
 		}
 		for _, en := range cl.ct.Assumes {
+			if fg.g.mentionsTrace(en.Expr) {
+				continue
+			}
 			fg.clausePkg(env, en)
 			fg.assumeHere(fg.trBool(en.Expr, env))
 			fg.note("ASSUMED postcondition of %s (not checked against its body): %s", cl.name, en.Text)
@@ -351,6 +390,9 @@ func (fg *FuncGen) applyCall(cl *callee, args []Val, pos token.Pos, guard string
 					}
 				}
 				for _, en := range ict.Ensures {
+					if fg.g.mentionsTrace(en.Expr) {
+						continue
+					}
 					fg.clausePkg(ienv, en)
 					fg.assumeHere(fg.trBool(en.Expr, ienv))
 				}
@@ -401,6 +443,11 @@ func (fg *FuncGen) recordCall(cl *callee, args []Val, guard string) {
 		srt := fmt.Sprintf("(Array Int %s)", fg.enc.sortOf(a.Typ))
 		arr := fg.ghostGet(st, cell, srt, "")
 		fg.ghostSet(st, cell, srt, ite(guard, fmt.Sprintf("(store %s %s %s)", arr, cnt, a.T), arr))
+	}
+	if fg.pendingFnVal != "" {
+		// the function value a dynamic call went through
+		farr := fg.ghostGet(st, "$callfn:"+name, "(Array Int Int)", "")
+		fg.ghostSet(st, "$callfn:"+name, "(Array Int Int)", ite(guard, fmt.Sprintf("(store %s %s %s)", farr, cnt, fg.pendingFnVal), farr))
 	}
 	sc := "$callseq:" + name
 	init := "((as const (Array Int Int)) 0)"
@@ -985,6 +1032,9 @@ func (fg *FuncGen) execAppend(res ssa.Value, c *ssa.CallCommon, pos token.Pos) {
 // ---- defers and returns ------------------------------------------------------------------
 
 func (fg *FuncGen) execRunDefers() {
+	if fg.inlineDepth > 0 {
+		return // an inlined closure has no defers of its own (checked before inlining); the caller's are not its to run
+	}
 	st := fg.cur
 	var ds []*ssa.Defer
 	for d := range st.defer_ {
@@ -1006,6 +1056,16 @@ func (fg *FuncGen) execRunDefers() {
 		if _, ok := c.Value.(*ssa.Builtin); ok {
 			fg.taint("deferred builtin")
 			continue
+		}
+		if mc, ok := fg.closures[c.Value]; ok && !c.IsInvoke() {
+			dargs := st.dargs[d]
+			if len(dargs) > 0 {
+				dargs = dargs[1:]
+			}
+			if _, ok := fg.inlineClosure(mc, dargs, g); ok {
+				st = fg.cur
+				continue
+			}
 		}
 		cl := fg.resolveCallee(c)
 		args := st.dargs[d]
